@@ -198,6 +198,24 @@ def memo_case():
     base({"MODE": "y", "A": 1})
     if runs["n"] != 1:
         msgs.append(f"an implementation overloaded under ['x', 'y'] ran {runs['n']} times for MODE=x then MODE=y with the same relevant options")
+    # C02: an overload made from a bare function is a dataset like any other (memoised per relevant assignment), whatever the parent's own cache setting
+    for parent_kind in ("nocache", "cached"):
+        runs2 = {"n": 0}
+        deco = dataset.nocache if parent_kind == "nocache" else dataset
+
+        @deco(dispatch="MODE")
+        def base2(a=Option("A")):
+            return ("base", a)
+
+        @base2.overload("x")
+        def impl2(a=Option("A")):
+            runs2["n"] += 1
+            return ("impl", a)
+        base2({"MODE": "x", "A": 1})
+        base2({"A": 1, "MODE": "x", "UNUSED": 3})
+        impl2({"A": 1})
+        if runs2["n"] != 1:
+            msgs.append(f"an overload (bare function) of a {parent_kind} parent ran {runs2['n']} times for one relevant assignment (twice through the parent, once directly)")
     # C01: the caller's own dictionary changed IN PLACE between two evaluations of one long-lived cached node / dataset
     from labrea import cached
     for make in (lambda: cached(Option("N") >> (lambda n: n * n)), lambda: dataset(lambda n=Option("N"): n * n)):
